@@ -24,7 +24,7 @@ type CloneCase struct {
 	Blocks    int    `json:"blocks"`
 	Hist      []SOp  `json:"hist"`      // writes and snapshots on the source (snapshot names s0, s1, ...)
 	Pick      int    `json:"pick"`      // which snapshot (mod count) is cloned; -1 = a name that does not exist
-	Interrupt string `json:"interrupt"` // "" | killclone (kill -9 the clone once during the copy and restart it)
+	Interrupt string `json:"interrupt"` // "" | killclone (kill -9 the clone once during the copy and restart it) | shortchain (the clone process runs with MAX_CHAIN_LENGTH=2: create, open and the file copy work, its reload onto a copied chain of more than one snapshot fails)
 	KillAtMs  int    `json:"killat"`
 }
 
@@ -50,7 +50,7 @@ func (cc *cloneChild) exited() bool {
 	}
 }
 
-func startCloneChild(bin, dir, ip, cloneFrom, snap, frontend string, size int64, portLo, portHi int) (*cloneChild, error) {
+func startCloneChild(bin, dir, ip, cloneFrom, snap, frontend string, size int64, portLo, portHi int, extraEnv ...string) (*cloneChild, error) {
 	cc := &cloneChild{errb: &bytes.Buffer{}, done: make(chan struct{})}
 	os.MkdirAll(dir, 0700)
 	cc.agent = exec.Command(bin, "sync-agent", "--listen", ip+":9504", "--listen-port-range", fmt.Sprintf("%d-%d", portLo, portHi))
@@ -62,7 +62,7 @@ func startCloneChild(bin, dir, ip, cloneFrom, snap, frontend string, size int64,
 	go cc.agent.Wait()
 	cc.cmd = exec.Command(bin, "replica", "--type", "clone", "--cloneIP", cloneFrom, "--snapName", snap, "--frontendIP", frontend,
 		"--listen", ip+":9502", "--size", strconv.FormatInt(size, 10), "--sync-agent=false", "--logtofile=false", dir)
-	cc.cmd.Env = append(os.Environ(), "REPLICATION_FACTOR=1")
+	cc.cmd.Env = append(append(os.Environ(), "REPLICATION_FACTOR=1"), extraEnv...)
 	cc.cmd.SysProcAttr = &syscall.SysProcAttr{Pdeathsig: syscall.SIGKILL, Setpgid: true}
 	cc.cmd.Stdout = nil
 	cc.cmd.Stderr = cc.errb
@@ -187,7 +187,30 @@ func runCloneCase(cc CloneCase) (*Fail, []string, map[string]int, error) {
 	cloneIP := nodeIP(dst.slot, 50)
 	cloneDir := filepath.Join(dst.Base, "clone")
 	pb := portBase() + 170
-	child, err := startCloneChild(bin, cloneDir, cloneIP, src.CtrlIP, snapName, dst.CtrlIP, int64(cc.Blocks)*Blk, pb, pb+39)
+	var childEnv []string
+	expectError := cc.Pick < 0
+	if cc.Interrupt == "shortchain" {
+		// 2 is the smallest limit under which a replica can be created at all; the
+		// copied chain (head + S + its ancestors) exceeds it unless S is the oldest snapshot
+		childEnv = append(childEnv, "MAX_CHAIN_LENGTH=2")
+		if cc.Pick >= 0 {
+			// S and its ancestors in the source's chain (replicas added later start with an automatic snapshot below the first user snapshot)
+			sch, _ := src.Nodes[0].S.Replica().Chain()
+			depth := 0
+			for i, d := range sch {
+				if d == snapDisk(snapName) {
+					depth = len(sch) - i
+				}
+			}
+			if depth+1 > 2 {
+				expectError = true
+				labels["clone:reload-fails"]++
+			} else {
+				labels["clone:short-chain-limit-fits"]++
+			}
+		}
+	}
+	child, err := startCloneChild(bin, cloneDir, cloneIP, src.CtrlIP, snapName, dst.CtrlIP, int64(cc.Blocks)*Blk, pb, pb+39, childEnv...)
 	if err != nil {
 		return nil, nil, nil, err
 	}
@@ -283,7 +306,7 @@ func runCloneCase(cc CloneCase) (*Fail, []string, map[string]int, error) {
 			rwAt = time.Since(t0)
 			break
 		}
-		if strings.HasSuffix(status, "error") && (cc.Pick < 0 || (cc.Interrupt == "" && child.exited())) {
+		if strings.HasSuffix(status, "error") && (expectError || (cc.Interrupt == "" && child.exited())) {
 			// (for an existing snapshot: the clone process gave up and exited, no
 			// need to wait for the deadline)
 			finalErr = true
@@ -319,10 +342,14 @@ func runCloneCase(cc CloneCase) (*Fail, []string, map[string]int, error) {
 			maxRank = r
 		}
 	}
-	if cc.Pick < 0 {
+	if expectError {
 		labels["clone:error-case"]++
 		if !finalErr {
-			return fail("clone|missing-snapshot|no-error-status", fmt.Sprintf("cloning a snapshot that does not exist did not end in status error within 60 s: %v", obs), "C19"), x.Trace, labels, nil
+			what := "missing-snapshot"
+			if cc.Pick >= 0 {
+				what = "reload-fails"
+			}
+			return fail("clone|"+what+"|no-error-status", fmt.Sprintf("a clone that cannot succeed (%s) did not end in status error within 60 s (listed %q in the new volume): %v", what, cloneMode(dst, cloneAddr), obs), "C19"), x.Trace, labels, nil
 		}
 		for _, r := range dst.C.ListReplicas() {
 			if r.Address == cloneAddr && r.Mode == types.RW {
@@ -407,6 +434,8 @@ func genCloneCase(t *rapid.T) CloneCase {
 	case 1, 2:
 		cc.Interrupt = "killclone"
 		cc.KillAtMs = rapid.IntRange(0, 3000).Draw(t, "killat")
+	case 3:
+		cc.Interrupt = "shortchain"
 	}
 	return cc
 }
